@@ -174,7 +174,7 @@ def claims(tier):
         cl.append(Claim("add_sub[%d-%d]" % (lo, min(n, lo + step) - 1), c09_add_sub, params={"lo": lo, "hi": min(n, lo + step)}, pre=[lambda i, j: P["lo"] <= i < P["hi"] and 0 <= j < len(VOCAB) and (True if P.get("all") else True)], timeout=900 if q else 3000, bounds="value pairs (i in %d..%d) x all %d vocabulary values (realised; concrete doubles)" % (lo, min(n, lo + step) - 1, n)))
     B = 2 ** 20 if q else 2 ** 40
     cl.append(Claim("beat_int", c09_beat_int, pre=[lambda d: -B <= d <= B], exact_int_div=True, timeout=900 if q else 3000, per_path=120, bounds="d: every integer in [-%d, %d]; fuel 1100; %d while loop(s) instrumented" % (B, B, _NLOOPS)))
-    es = list(range(-3, 13)) if q else list(range(-12, 41)) + [-1074 + 52, -1022, 100, 1023]
+    es = list(range(-3, 13)) if q else list(range(-12, 41)) + [-1022, -500, 100, 1023]
     for e in es:
         cl.append(Claim("beat_float[e=%d]" % e, c09_beat_float, params={"e": e}, group="c09_beat_float", pre=[lambda m: 0 <= m < 2 ** 52], timeout=900 if q else 3000, per_path=120, bounds="every double +-(1.m) * 2^%d (all 2^52 mantissas, both signs) as an exact dyadic value; fuel 1100" % e))
     cl.append(Claim("beat_special", c09_beat_special, pre=[lambda i: 0 <= i < 16], timeout=300, bounds="NaN, +-inf, +-0, min subnormal, max double, 0.5, 2.5, 2^1023, ... (16 concrete doubles), fuel 1100"))
